@@ -361,6 +361,17 @@ def run(check: Check) -> None:
             check.obligation("scale.float/ground", "refuted" if bad else "ground")
             if bad:
                 check.violation(f"scale_float(ddof={ddof})::{bad.split(':', 1)[0]}", bad, p)
+    # the same contract for vectors that arrive in another numeric dtype (integers of any magnitude, float32, booleans; float16 is left out: its own rounding exceeds the tolerance)
+    for name, vec, dt in (("int64 nanosecond epochs", [1_700_000_000_000_000_000 + 86_400_000_000_000 * k * k for k in range(8)], "int64"), ("uint64 above 2**63", [2 ** 63 + 2 ** 42 * k * k for k in range(6)], "uint64"),
+                          ("int32 near the top", [2_000_000_000 + 7 * k * k for k in range(9)], "int32"), ("int8", [100, 120, 90, 127, -128, 5], "int8"), ("uint8", [200, 250, 255, 0, 17, 240], "uint8"),
+                          ("float32 offset", [16_000_000.0 + 2 * k for k in range(6)], "float32"), ("bool", [1, 0, 0, 1, 1, 1, 0], "bool")):
+        for ddof in (1, 0):
+            p = {"kind": "c13_scale_float", "x": vec, "ddof": ddof, "dtype": dt}
+            bad = replays.run(p)
+            check.case(f"scale dtype {name} ddof={ddof}")
+            check.obligation("scale.dtype/ground", "refuted" if bad else "ground")
+            if bad:
+                check.violation(f"scale_dtype({dt},ddof={ddof})::{bad.split(':', 1)[0]}", bad, p)
 
     for name, vec in (("offset 1e8", [1e8 + k * k for k in range(7)]), ("magnitude 1e-7", [1e-7 * (k + 0.5) ** 2 for k in range(7)]), ("magnitude 1e11", [1e11 * (k + 1) for k in range(7)]),
                       ("offset -3e9", [-3e9 + 0.25 * k * (k + 1) for k in range(8)])):
